@@ -88,6 +88,25 @@ PROPS = {
                        "written raw (the property speaks of values).",
         "assumptions": ["POSIX: inside '..' only ' is special and '\\'' yields it; inside \"..\" exactly \\ \" $ ` are special"],
     },
+    "C03": {
+        "module": "c03",
+        "explanation": "R10: no lossy numeric cast between a Val number and the serializer (cast kinds from MIR + provenance). "
+                       "R11 (exhaustive, 3 converters x 9 Val variants, per-variant path analysis): always-Err exactly for the "
+                       "variants the format cannot represent, non-finite float -> Err in JSON. R64: every loop iteration adds the "
+                       "element or fails the conversion; append-only forward iteration. R12: `---` before every yamlmulti document. "
+                       "R70: no Val payload hand-formatted into the output. Not decided: that serde_json / serde_yaml / toml emit "
+                       "valid text that an independent decoder reads back.",
+        "assumptions": ["serde_json, serde_yaml and toml serialise their own value types correctly"],
+    },
+    "C12": {
+        "module": "c12",
+        "explanation": "R61: the raw writer is only given to xml-rs, all content goes through EventWriter::write / characters(). "
+                       "R69: start/end element pairing on every successful path. R62: error table per Val variant and for missing "
+                       "root, bad version, name+text. R90: namespace and version tables. R63: NULL parts are skipped before any "
+                       "getter / attr(). Not decided: escaping, namespace prefixing and indentation behaviour of xml-rs; equality "
+                       "of the re-parsed tree; a root tuple without name and text writes nothing (noted in DESIGN.md).",
+        "assumptions": ["xml-rs escapes markup-significant characters in characters() and attribute values"],
+    },
 }
 
 
